@@ -94,17 +94,20 @@ Recv(e) ==
         /\ Check(e.state = "CLOSED", "C08", "ClosedIsFinal")
         /\ Adopt(e, x.ctr) /\ UNCHANGED <<role, ibuf, queue, obuf, framing, clean, tid>>
     ELSE
-    LET buf   == ibuf \o e.chunk
-        f     == Frame(buf, 1, 0)
-        nq    == IF f.n <= Len(queue) THEN f.n ELSE Len(queue)
-        us    == SubSeq(queue, 1, nq)                       \* the declared units that are now complete
-        rest  == SubSeq(queue, nq + 1, Len(queue))
-        allValid  == \A j \in 1..Len(us) : us[j].valid
+    \* "\E v \in {expr} :" binds v to the VALUE of expr, once.  A LET definition in an action is re-evaluated at every
+    \* reference: with  us  referring to  nq  referring to  f, every us[j] inside a quantifier re-ran Frame over the whole
+    \* buffer (measured: 10 s for a delivery of 100 units, 96 s for 200).
+    \E buf \in {ibuf \o e.chunk} :
+    \E f \in {Frame(buf, 1, 0)} :
+    \E nq \in {IF f.n <= Len(queue) THEN f.n ELSE Len(queue)} :
+    \E us \in {SubSeq(queue, 1, nq)} :                      \* the declared units that are now complete
+    \E rest \in {SubSeq(queue, nq + 1, Len(queue))} :
+    \E expd \in {Receive(role, x, Descs(us))} :             \* what the state machine makes of the complete valid units
+    LET allValid  == \A j \in 1..Len(us) : us[j].valid
         \* a malformed outer header makes framing impossible: from here on the library can only fail
         unframable == f.why \in {"indefinite", "big"}
         \* the incomplete tail unit is declared garbage and some of it has arrived: the library may reject it early
         tailGarbage == f.tail <= Len(buf) /\ rest # <<>> /\ ~rest[1].valid
-        expd  == Receive(role, x, Descs(us))                 \* what the state machine makes of the complete valid units
         mayFail  == ~allValid \/ unframable \/ tailGarbage \/ expd.res # "ok"
         mustFail == allValid /\ expd.res # "ok"               \* a protocol violation or a designed termination
         tail  == SubSeq(buf, f.tail, Len(buf))
